@@ -167,7 +167,8 @@ def run_unit(unit, rng, ctx):
         ctx.check(float(np.abs(m1 - m2).max()) <= 1e-9 * max(1.0, float(np.abs(m1).max())), f'{what}: MSD changed under integer lattice shifts', {'input': X1, 'shift': K})
         d1 = float(t1.metrics().tracer_diffusivity(dimensions=3))
         d2 = float(t2.metrics().tracer_diffusivity(dimensions=3))
-        ctx.check(abs(d1 - d2) <= 1e-9 * max(abs(d1), 1e-300), f'{what}: tracer diffusivity changed under integer lattice shifts: {d1} vs {d2}')
+        d_noise = 1e-32 / (6 * T * 1e-15)  # the diffusivity of a 1e-6 A displacement: below that is rounding noise
+        ctx.check(abs(d1 - d2) <= 1e-9 * abs(d1) + d_noise, f'{what}: tracer diffusivity changed under integer lattice shifts: {d1} vs {d2}')
     if unit['i'] % 4 == 0:
         # downstream consumer that asserts the [0,1) range
         try:
